@@ -568,10 +568,11 @@ assembleVaryKey(String &vary, SBuf &vstr, const HttpRequest &request)
         if (!vstr.isEmpty())
             vstr.append(", ", 2);
         vstr.append(name);
-        String hdr(request.header.getByName(name));
-        const char *value = hdr.termedBuf();
-        if (value) {
-            value = rfc1738_escape_part(value);
+        String hdr;
+        // a field present with an empty value does not match an absent
+        // field (RFC 9111 section 4.1), so presence decides, not the value
+        if (request.header.hasNamed(name, &hdr)) {
+            const char *value = hdr.size() ? rfc1738_escape_part(hdr.termedBuf()) : "";
             vstr.append("=\"", 2);
             vstr.append(value);
             vstr.append("\"", 1);
